@@ -36,7 +36,7 @@ REVERSIBLE = {
     "set_objective", "set_direction", "set_obj_coef", "add_cons", "add_var", "remove_cons_vars",
     "knock_out_gene", "set_functional", "knock_out_model_genes", "remove_genes", "rename_genes",
     "medium", "build_from_string", "optimize", "slim_optimize", "enter", "exit", "exit_exc",
-    "copy", "deepcopy", "pickle", "rxn_copy", "rxn_arith", "helper", "merge",
+    "copy", "deepcopy", "pickle", "rxn_copy", "rxn_arith", "helper", "merge", "det_mutate", "repair",
 }
 LIFECYCLE = {"copy", "deepcopy", "pickle"}
 NO_CONTENT_CHANGE = {"optimize", "slim_optimize", "repair", "solver", "tolerance", "rxn_copy", "rxn_arith"}
@@ -52,6 +52,10 @@ _DEVNULL = _Null()
 
 class Skip(Exception):
     pass
+
+
+def depth_now(a):
+    return len(a.model._contexts)
 
 
 class EndRun(Exception):
@@ -346,6 +350,29 @@ class Hist:
             except Violation as v:
                 v.culprit = op
                 raise
+        if kind == "prune" and raised is None:
+            a.ref = pre
+            want = pre.clone()
+            want.stack = []
+            if op["what"] == "mets":
+                gone = sorted(m for m in want.mets if not any(m in x["mets"] for x in want.rxns.values()))
+                for m in gone:
+                    want._remove_met_nd(m)
+            else:
+                gone = sorted(r for r, x in want.rxns.items() if not x["mets"])
+                for r in gone:
+                    want._remove_rxn(r)
+            b = Actor(ret, want)
+            bs = S.snap(ret)
+            b.prev = bs
+            if "ref_equal" in self.oracles:
+                if env.pruned != gone:
+                    raise Violation("ref_equal", {"what": "prune: returned list of removed objects", "got": env.pruned, "want": gone}, culprit=op)
+                self._judge_content(b, bs, f"result of prune_unused_{op['what']}", op)
+            self._invariants(b, bs, op)
+            if len(self.actors) < 3:
+                self.actors.append(b)
+            self.stats["probe:prune_result_checked"] += 1
         if kind in LIFECYCLE and raised is None:
             self._new_actor(a, ret, op, pre)
             a.ref = pre
@@ -431,7 +458,7 @@ class Hist:
         self._invariants(a, snap, op)
         if "isolation" in self.oracles:
             for b in self.actors:
-                if b is a or b.prev is None:
+                if (b is a and kind != "det_mutate") or b.prev is None:
                     continue
                 now = S.snap(b.model)
                 d = S.diff(b.prev, now)
@@ -526,7 +553,7 @@ class Hist:
         # rename_genes: "undefined if a value matches a different key" (comment in the code)
         if kind == "rename_genes":
             mp = op["map"]
-            if set(mp.values()) & set(mp) or len(set(mp.values())) != len(mp):
+            if set(mp.values()) & set(mp):
                 raise Skip("rename_genes with overlapping keys and values is documented as undefined")
         # known finding optlang-exact-clone: an unpickled / deep-copied glpk_exact solver holds
         # constraint objects of the glpk interface, which optlang refuses to add back
@@ -542,6 +569,12 @@ class Hist:
             if any(v.ub == big or v.lb == -big for v in a.model.variables):
                 self.stats["quarantined:optlang_dblmax"] += 1
                 raise Skip("quarantined")
+        if kind == "remove_cons_vars" and depth_now(a) > 0 and "optlang_dblmax" in self.quarantine:
+            big = 1.7976931348623157e308
+            for n in op["names"]:
+                if n in a.model.variables and (a.model.variables[n].ub == big or a.model.variables[n].lb == -big):
+                    self.stats["quarantined:optlang_dblmax"] += 1
+                    raise Skip("quarantined")  # the undo would write optlang's +-DBL_MAX into the problem
         # A.2: a detached reaction whose metabolite objects would be adopted by the model while
         # they still belong to the detached reaction is an undocumented argument shape
         if kind in ("iadd", "isub") and op.get("src") == "det":
@@ -919,6 +952,17 @@ class Hist:
         e = ValueError("simulated failure inside the block")
         a.model.__exit__(ValueError, e, None)
 
+    def do_prune(self, a, op, env):
+        from cobra.manipulation import prune_unused_metabolites, prune_unused_reactions
+
+        fn = prune_unused_metabolites if op["what"] == "mets" else prune_unused_reactions
+        new, removed = fn(a.model)
+        if new is a.model:
+            raise Violation("isolation", {"what": f"prune_unused_{'metabolites' if op['what'] == 'mets' else 'reactions'} returned the input "
+                                                  "model itself instead of a new model"}, culprit=op)
+        env.pruned = sorted(x.id for x in removed)
+        return new
+
     def do_copy(self, a, op, env):
         return a.model.copy()
 
@@ -1109,6 +1153,14 @@ class Hist:
         return res
 
     def do_rxn_copy(self, a, op, env):
+        if op.get("src") == "removed":
+            ent = self.removed.get((self.actors.index(a), op["r"]))
+            if ent is None:
+                raise Skip("no removed reaction object")
+            c = ent[0].copy()
+            self._detach(op["key"], c, copy.deepcopy(ent[1]["x"]))
+            self.stats["probe:removed_reaction_object_copied"] += 1
+            return
         r = self.rxn(a, op["r"])
         c = r.copy()
         self._detach(op["key"], c, a.ref.rxns[op["r"]])
@@ -1133,6 +1185,42 @@ class Hist:
         if c is r or c.model is not None or any(m.model is not None for m in c.metabolites):
             raise Violation("isolation", {"what": f"reaction arithmetic '{op['f']}' returned an object that is attached to the model"}, culprit=op)
         self._detach(op["key"], c, pred)
+
+    def do_det_mutate(self, a, op, env):
+        d = self.detached.get(op["key"])
+        if d is None:
+            raise Skip("no detached object")
+        r = d["obj"]
+        how = op["how"]
+        if how == "bounds":
+            r.bounds = (op["lb"], op["ub"])
+        elif how == "imul":
+            r *= op["k"]
+        elif how == "rule":
+            r.gene_reaction_rule = op["rule"]
+        elif how == "id":
+            r.id = op["new"]
+        elif how == "coeff":
+            mets = sorted(r._metabolites, key=lambda m: m.id)
+            if not mets:
+                raise Skip("empty")
+            r.add_metabolites({mets[0]: op["c"]})
+        elif how == "met_attr":
+            mets = sorted(r._metabolites, key=lambda m: m.id)
+            if not mets:
+                raise Skip("empty")
+            mets[0].name = op["value"]
+            mets[0].annotation["k1"] = op["value"]
+        d["snap"] = _det_snap(r)
+        try:
+            tree = gprtree.parse(r.gene_reaction_rule)
+        except ValueError:
+            tree = None
+        # the detached object is an *input* of later operations: its reference is re-read from the object
+        d["ref"] = {"lb": r.lower_bound, "ub": r.upper_bound, "mets": {m.id: c for m, c in r._metabolites.items()}, "rule": tree,
+                    "name": r.name, "subsystem": r.subsystem, "notes": {}, "annotation": {}}
+        env.touched_detached = {op["key"]}
+        self.stats["probe:detached_object_mutated"] += 1
 
     def _detach(self, key, obj, refd):
         self.detached[key] = {"obj": obj, "ref": copy.deepcopy(refd), "snap": _det_snap(obj)}
@@ -1240,13 +1328,13 @@ ALL_KINDS = {
     "remove_genes": 2, "rename_genes": 1, "medium": 2, "build_from_string": 1, "optimize": 2,
     "slim_optimize": 2, "repair": 1, "solver": 1, "tolerance": 1, "compartments": 1, "add_groups": 1,
     "remove_groups": 1, "enter": 0, "exit": 0, "exit_exc": 0, "copy": 0, "deepcopy": 0, "pickle": 0,
-    "rxn_copy": 1, "rxn_arith": 1, "edit_dict": 1, "restart": 0, "helper": 1, "merge": 1, "readd_reaction": 3,
+    "rxn_copy": 1, "rxn_arith": 1, "edit_dict": 1, "restart": 0, "helper": 1, "merge": 1, "readd_reaction": 3, "det_mutate": 1, "prune": 1,
 }
 
 PROP_BIAS = {
     "C01": {"helper": 2, "merge": 2, "solver": 3, "copy": 1, "pickle": 1, "deepcopy": 1, "enter": 2, "exit": 3, "exit_exc": 1},
     "C02": {},
-    "C03": {"enter": 6, "exit": 6, "exit_exc": 2, "helper": 3, "merge": 2, "rename_rxn": 0, "rename_met": 0, "repair": 0, "solver": 0,
+    "C03": {"enter": 6, "exit": 6, "exit_exc": 2, "helper": 3, "merge": 2, "rename_rxn": 0, "rename_met": 0, "repair": 1, "solver": 0,
             "tolerance": 0, "compartments": 0, "add_groups": 0, "remove_groups": 0, "set_attr": 0,
             "edit_dict": 0},
     "C07": {"knock_out_gene": 12, "knock_out_model_genes": 8, "knock_out_rxn": 4, "set_functional": 4,
@@ -1258,7 +1346,7 @@ PROP_BIAS = {
             "add_groups": 1, "rename_rxn": 2, "rename_met": 2, "set_rule": 4, "compartments": 2},
     "C10": {"restart": 10, "edit_dict": 4, "set_attr": 4, "set_bounds": 6, "set_direction": 3, "set_objective": 3,
             "add_groups": 3, "rename_rxn": 2, "rename_met": 2, "set_rule": 4, "compartments": 2, "remove_groups": 1},
-    "C12": {"copy": 4, "deepcopy": 2, "pickle": 3, "rxn_copy": 3, "rxn_arith": 3, "edit_dict": 4,
+    "C12": {"copy": 4, "deepcopy": 2, "pickle": 3, "rxn_copy": 3, "rxn_arith": 3, "edit_dict": 4, "det_mutate": 4, "prune": 2,
             "enter": 1, "exit": 2},
 }
 
@@ -1543,8 +1631,11 @@ def gen_op(rng, H, sw):
         if not gids:
             return gen_fallback(op, rid, rng)
         mp = {}
-        for g in sorted({rng.choice(gids) for _ in range(rng.randint(1, 2))}):
+        for g in sorted({rng.choice(gids) for _ in range(rng.randint(1, 3))}):
             mp[g] = _fresh("h", set(ref.genes) | set(mp.values()), rng) if rng.random() < 0.8 else rng.choice(gids)
+        if len(mp) >= 2 and rng.random() < 0.3:
+            tgt = list(mp.values())[0]
+            mp = {g: tgt for g in mp}  # several genes onto one new id
         op["map"] = mp
     elif k == "medium":
         try:
@@ -1585,6 +1676,8 @@ def gen_op(rng, H, sw):
         if not ref.groups:
             return gen_fallback(op, rid, rng)
         op["ids"] = [rng.choice(sorted(ref.groups))]
+    elif k == "prune":
+        op["what"] = rng.choice(["mets", "rxns"])
     elif k == "pickle":
         op["proto"] = rng.choice([2, 4, 5])
     elif k == "restart":
@@ -1609,8 +1702,19 @@ def gen_op(rng, H, sw):
         if not cands:
             return gen_fallback(op, rid, rng)
         op["rid"] = rng.choice(cands)
+    elif k == "det_mutate":
+        dets = sorted(H.detached)
+        if not dets:
+            return gen_fallback(op, rid, rng)
+        how = rng.choice(["bounds", "imul", "rule", "id", "coeff", "met_attr"])
+        op.update(key=rng.choice(dets), how=how, lb=-3, ub=rng.choice([3, 7]), k=rng.choice(MULTS),
+                  rule=rng.choice(["g0 and g9", "", "g1"]), new=_fresh("DET", ref.rxns, rng), c=rng.choice(COEFS),
+                  value=rng.choice(["changed", "other"]))
     elif k == "rxn_copy":
         op.update(r=rid(), key=f"d{len(H.detached)}")
+        cands = sorted(r for (i, r) in H.removed if i == ai)
+        if cands and rng.random() < 0.3:
+            op.update(r=rng.choice(cands), src="removed")
     elif k == "rxn_arith":
         f = rng.choice(["*", "+", "-", "+0", "0+", "sum1"])
         op.update(r=rid(), f=f, key=f"d{len(H.detached)}")
